@@ -315,6 +315,59 @@ def quit_while_waiting(col, binpath, rng, tag, scratch):
         sess.close()
 
 
+def typeahead_quit(col, binpath, rng, tag, scratch):
+    """Keys typed while radar still waits for its first connection - and the server comes up in the
+    same moment: whichever part of the client reads them, a quit request among them is honoured."""
+    import socket, threading
+    i = idx_of(tag)
+    sess = session.RadarSession(binpath, [], opts=[[], ["--retry-tcp"], ["--touchscreen"]][i % 3], rows=30, cols=100, scratch=scratch, listen=False)
+    ahead = [["F3"], ["x"], ["F3", "Down", "F1"], ["Tab"], []][i % 5]
+    how = ["q", "CtrlC"][i % 2]
+    inp = {"scenario": "keys typed while waiting for the first connection, the server comes up at the same time", "keys": ahead + [how], "argv": sess.argv, "tag": tag}
+    ls = None
+    conns = []
+    try:
+        sess.p.pump(rng.choice([1.2, 2.5]))
+        if not sess.p.alive():
+            col.add("C17", "C17|terminated_before_quit|while_waiting", f"radar exited with status {sess.p.p.returncode} (panic {sess.panic_location()}) while waiting for a connection", inp)
+            return
+        ls = socket.socket(socket.AF_INET, socket.SOCK_STREAM)
+        ls.setsockopt(socket.SOL_SOCKET, socket.SO_REUSEADDR, 1)
+        try:
+            ls.bind(("127.0.0.1", sess.srv.port))
+        except OSError:
+            raise Inconclusive("the port of the late server is taken")
+        ls.listen(4)
+        ls.settimeout(0.2)
+        stop = threading.Event()
+        def serve():
+            while not stop.is_set():
+                try:
+                    c, _ = ls.accept()
+                    conns.append(c)
+                    c.sendall(b"".join(aircraft_lines(random.Random(i), 2, 52.0, 4.0)))
+                except OSError:
+                    pass
+        t = threading.Thread(target=serve, daemon=True)
+        t.start()
+        # everything in one write, as type-ahead arrives
+        sess.send_raw(b"".join(procs.KEYS[k] for k in ahead + [how]), "typeahead:" + ",".join(ahead + [how]))
+        col.count("sessions")
+        col.cls("session|typeahead_first_connection")
+        check_exit(col, sess, f"'{how}' typed (after {ahead}) while the first connection was being made", "typeahead", inp)
+        col.count("quits_checked")
+        stop.set()
+    finally:
+        for c in conns:
+            try:
+                c.close()
+            except OSError:
+                pass
+        if ls is not None:
+            ls.close()
+        sess.close()
+
+
 def quit_on_reconnect_screen(col, binpath, rng, tag, scratch):
     """--retry-tcp: the feed disappears and stays away; operator events and quit on the waiting screen."""
     how = rng.choice(["q", "CtrlC"])
@@ -509,6 +562,8 @@ def main(a, lcol, col, run_all, scratch, START):
         jobs.append((f"reconnect#{i}", lambda rng, i=i: quit_on_reconnect_screen(lcol, a.bin, rng, f"reconnect#{i}", scratch)))
     for i in range(12 if thorough else 3):
         jobs.append((f"reconnected#{i}", lambda rng, i=i: quit_after_reconnect(lcol, a.bin, rng, f"reconnected#{i}", scratch)))
+    for i in range(30 if thorough else 6):
+        jobs.append((f"typeahead#{i}", lambda rng, i=i: typeahead_quit(lcol, a.bin, rng, f"typeahead#{i}", scratch)))
     for i in range(32 if thorough else 8):
         jobs.insert(0, (f"sweep#{i}", lambda rng, i=i: click_sweep(lcol, a.bin, rng, f"sweep#{i}", scratch)))
     for name, args in CLI_CASES:
